@@ -579,6 +579,7 @@ def split_additions(text):
 
 
 STMT_ADD = re.compile(r"\s*(proof\b|let\s+ghost\b|assert\b|assume\b|broadcast\b|reveal\b)")
+LOOPSPEC_ADD = re.compile(r"\s*(invariant\b|invariant_except_break\b|decreases\b)")
 
 
 KEEP_VISIBILITY = False
@@ -666,6 +667,19 @@ def weave(blk, real_ct):
         elif how == "inside":
             dropped += 1
             continue
+        elif LOOPSPEC_ADD.match(atext):
+            # a loop specification is only meaningful in front of the body of a loop: when the real
+            # code no longer has a loop header here (e.g. `for x in xs {` became `if let Some(x) = o {`)
+            # the clause is dropped and the enclosing contract has to hold without it
+            k = j
+            while k > 0 and b[k - 1] not in BOUND:
+                k -= 1
+            hdr = b[k:j]
+            if hdr and hdr[0].startswith("'") and len(hdr) > 2:
+                hdr = hdr[2:]
+            if not (j < len(b) and b[j] == "{" and hdr and hdr[0] in ("while", "for", "loop")):
+                dropped += 1
+                continue
         by_j.setdefault(j, []).append(atext)
     stream = []
     for j in range(len(b) + 1):
@@ -682,7 +696,7 @@ def render_inline(stream):
     out = []
     for kind, text in stream:
         if kind == "add":
-            out.append(" " + (ADD_OPEN + text + ADD_CLOSE if KEEP_MARKERS else text) + " ")
+            out.append(" " + ADD_OPEN + text + ADD_CLOSE + " ")
         else:
             if kind == "glued" and out and out[-1] == " ":
                 out.pop()
